@@ -512,11 +512,11 @@ class FuncContent:
         self.tokenizer.merge_vanilla_macro(self.command, key_pos)
 
         if token.string == "with":
-            self.__handle_with_anon(key_pos, token)
             if len(self.command) <= key_pos + 1:
                 raise JMCSyntaxException(
                     f"Expected a token after 'with'", token, self.tokenizer
                 )
+            self.__handle_with_anon(key_pos, token)
             if self.__handle_with(key_pos, token):
                 return SKIP_TO_NEXT_LINE
 
@@ -668,6 +668,12 @@ class FuncContent:
             del self.command[key_pos + 1]  # delete ()
 
             append_commands(self.__commands, "with")
+            if len(self.command) <= key_pos + 2:
+                raise JMCSyntaxException(
+                    f"Expected a token after 'with'",
+                    self.command[key_pos + 1],
+                    self.tokenizer,
+                )
             return self.__handle_with(key_pos + 1, token)
 
         if self.command[key_pos + 1].string != "()":
@@ -927,7 +933,14 @@ class FuncContent:
                 or "run function" not in self.command_strings[-1]
             ):
                 return
-            first_section, second_section = self.command_strings.pop().split(" run ")
+            sections = self.command_strings.pop().split(" run ")
+            if len(sections) != 2:
+                raise JMCSyntaxException(
+                    "Unexpected 'with' after a statement that is not a single function call",
+                    token,
+                    self.tokenizer,
+                )
+            first_section, second_section = sections
             append_commands(
                 self.__commands,
                 f"{first_section} run {
